@@ -140,7 +140,14 @@ def main():
         }],
         "checks": checks,
         "not_applicable": na,
-        "notes": "Every check imports /repo's working tree directly (editable install); nothing to rebuild. known_findings.json lists recorded defects; see DESIGN.md.",
+        "notes": ("Commands are run from /verif. Every check imports /repo's working tree directly (sys.path entry in front of the editable install); "
+                  "nothing to rebuild. Exit 0 = held on everything explored (KNOWN-FINDING lines for entries of known_findings.json), exit 1 = "
+                  "VIOLATION lines with replay files under replays/<id>/, exit 2 = harness error. Every run writes evidence/<id>.json and the "
+                  "per-tier ledger runs/<id>.<tier>.json. VERIF_NPROC limits workers (default 16); VERIF_SEED only rotates which witnesses are kept "
+                  "as samples. On an idle 16-core machine the quick tier of all 29 checks takes about 11 minutes in total (largest: C11 ~95 s, C13 ~55 s), "
+                  "the thorough tier about 3.5 hours in total (largest: C01, C02, C07, C11 at 13-20 min each). "
+                  "Repaired defects are `fix:` commits in /repo listed under `fixed` in known_findings.json; 174 confirmed seeded property-breaking "
+                  "changes with their detection logs are under seeded/ (DESIGN.md section 9.4)."),
     }
     with open(os.path.join(ROOT, "MANIFEST.json"), "w") as f:
         json.dump(m, f, indent=1)
